@@ -16,7 +16,7 @@ from .union_model import S, UQ, Cm, LVm
 
 OBLIGATION_FLOOR = 60
 Z3_TIMEOUT_MS = 40000
-UNITS = ['trim', 'split', 'sample']
+UNITS = ['compute', 'trim', 'split', 'sample']
 BRANCH_COVERED_FUNCTIONS = (UQ + 'trim', UQ + 'split', UQ + 'sample')
 DEAD_BRANCHES = (
     ('reset', 'rng is not None', True),
@@ -120,6 +120,9 @@ def build(cx, fe, tier, info, only=None):
         G['n_dim'] = I(st.getfield(self_, 'n_dim'))
         return self_
 
+    if only in (None, 'compute'):
+        from .C13_compute import compute_unit
+        compute_unit(cx, fe, info)
     if only in (None, 'trim'):
         c = trim_contract()
 
